@@ -749,6 +749,53 @@ func execEqual(t []string) string {
 	return "false"
 }
 
+// execEqualIn: Equal on two pointers of ONE message (pointer fields 0 and 1 of the root struct).
+// "read equalin <segs>": the capability table holds the eight shared clients; the result is Equal's verdict, which must
+// be the same in both argument orders (else "asym").  "read equalsym <segs> <n> <nilmask>": a table of n entries, nil
+// where the mask has a bit set (capability indices may also lie outside the table): only symmetry and reflexivity
+// are judged ("ok").
+func execEqualIn(segsHex string, ncaps, nilmask int, verdict bool) string {
+	segs, ok := parseSegs(segsHex)
+	if !ok {
+		return "bad-op"
+	}
+	m := &capnp.Message{Arena: capnp.MultiSegment(segs), TraverseLimit: 1 << 40}
+	cl := sharedClients()
+	for i := 0; i < ncaps; i++ {
+		if nilmask>>uint(i)&1 == 1 {
+			m.AddCap(nil)
+		} else {
+			m.AddCap(cl[i%8].AddRef())
+		}
+	}
+	root, err := m.Root()
+	if err != nil || !root.Struct().IsValid() {
+		return "invalid"
+	}
+	p0, err0 := root.Struct().Ptr(0)
+	p1, err1 := root.Struct().Ptr(1)
+	if err0 != nil || err1 != nil {
+		return "invalid"
+	}
+	e01, errA := capnp.Equal(p0, p1)
+	e10, errB := capnp.Equal(p1, p0)
+	if (errA != nil) != (errB != nil) || e01 != e10 {
+		return "asym " + strconv.FormatBool(e01) + " " + strconv.FormatBool(e10)
+	}
+	if errA != nil {
+		return "invalid"
+	}
+	for _, p := range []capnp.Ptr{p0, p1} {
+		if eq, err := capnp.Equal(p, p); err == nil && !eq {
+			return "not-reflexive"
+		}
+	}
+	if !verdict {
+		return "ok"
+	}
+	return strconv.FormatBool(e01)
+}
+
 // execRead: "read walk <T> <D> <segs>"
 func execRead(t []string) string {
 	if len(t) > 0 && (t[0] == "conc" || t[0] == "concx") {
@@ -774,6 +821,14 @@ func execRead(t []string) string {
 	}
 	if len(t) == 4 && t[0] == "equal" {
 		return execEqual(t)
+	}
+	if len(t) == 2 && t[0] == "equalin" {
+		return execEqualIn(t[1], 8, 0, true)
+	}
+	if len(t) == 4 && t[0] == "equalsym" {
+		n, _ := strconv.Atoi(t[2])
+		mask, _ := strconv.Atoi(t[3])
+		return execEqualIn(t[1], n, mask, false)
 	}
 	if len(t) != 4 || t[0] != "walk" {
 		return "bad-op"
